@@ -207,7 +207,7 @@ class Runner:
                     self.check_remove(op, o, before, after, sh, problems)
                 if op[0] == 'worm' and before is not None:
                     self.check_worm(op, before, after, sh, problems)
-                if op[0] in ('store', 'add', 'register') and before is not None and o[0] == 'ok':
+                if op[0] in ('store', 'add', 'register', 'register-w') and before is not None and o[0] == 'ok':
                     gone = set(before['prime']) - set(after['prime'])
                     if gone:
                         problems.append(('C08:store-removes', f'{op[0]} dropped primary keys {sorted(gone)}'))
@@ -245,12 +245,29 @@ class Runner:
                 if sh.find('target', (None, op[1], None)) is None:
                     sh.note('target', (None, op[1], None), len(sh.t['target']))
                 return ['ok']
-            if kind == 'register':
+            if kind in ('register', 'register-w'):
                 _, task, alg, av, sv, svv, truthy, vn, vv = op
                 val = S.Val(vv)
                 svo = S.SV(sv, svv, [(vn, val)] if truthy else [])
-                S.shelve.update(S.Bot(task, 0), S.Alg(alg, av, [svo]), svo, vn, val)
+                if kind == 'register-w':
+                    # the worker's path (pl.version.record before every job): a re-opened handle, every
+                    # registration travels to the foreman as Func.append through the loop-back Worker
+                    if not S.DBI().is_open:
+                        return ['err', 'closed']
+                    S.DBI().reopen()
+                    try:
+                        S.shelve.update(S.Bot(task, 0), S.Alg(alg, av, [svo]), svo, vn, val)
+                    finally:
+                        S.DBI()._DBI__reopened = False  # pylint: disable=protected-access
+                else:
+                    S.shelve.update(S.Bot(task, 0), S.Alg(alg, av, [svo]), svo, vn, val)
+                rows = {n: len(sh.t[n]) for n in sh.t}
                 self.shadow_register(sh, task, alg, av, sv, svv if truthy else None, vn, vv)
+                t = S.tables()
+                for n in ('task', 'alg', 'state', 'value'):
+                    if len(t[n][1]) != len(sh.t[n]):
+                        problems.append(('C08:chain', f'{kind} of {task}.{alg}.{sv}.{vn} added {len(t[n][1]) - rows[n]} '
+                                                      f'row(s) to the {n} table, {len(sh.t[n]) - rows[n]} new name(s) were registered'))
                 return ['ok']
             if kind == 'store':
                 _, run, tn, task, alg, av, sv, svv, vn, vv, payload = op
@@ -308,6 +325,7 @@ class Runner:
                 return ['ok', calls]
             if kind == 'versions':
                 r = S.shelve.versions()
+                self.check_versions(r, sh, problems)
                 return ['ok', [sorted(r[0])] + [sorted([k, list(v)] for k, v in d.items()) for d in r[1:]]]
             if kind == 'keys':
                 r = S.shelve._prime_keys()  # pylint: disable=protected-access
@@ -414,7 +432,54 @@ class Runner:
                 problems.append(('C08:table-bijection', f'{n} ids are {ids}: not gap-free / not unique'))
             elif len(idx) != len(d) or any(idx[i] != k for k, i in d.items()):
                 problems.append(('C08:table-bijection', f'{n} index is not the inverse of the table'))
+        self.check_rows(t, sh, problems)
         self.check_chain(sh, problems, t)
+
+    def check_rows(self, t, sh, problems):
+        """every registered row resolves (real `dissect`) to the parent, name and version it was registered
+        under -- task -> algorithm -> state vector -> value also for rows no primary key points to yet"""
+        for n in ('alg', 'state', 'value'):
+            for i, full in enumerate(t[n][1]):
+                if i >= len(sh.t[n]):
+                    break
+                parent, name, ver = sh.t[n][i]
+                if not name_ok(name):
+                    continue
+                try:
+                    p, nme, v = self.S.util.dissect(full)
+                    got = (p, nme, (v.design(), v.implementation(), v.bugfix()) if v else None)
+                except Exception as e:  # pylint: disable=broad-except
+                    got = ('raises', type(e).__name__, None)
+                if got != (parent, name, ver):
+                    up = {'alg': 'task', 'state': 'alg', 'value': 'state'}[n]
+                    problems.append(('C08:chain', f'{n} row {i} was registered as {name!r} {ver} under {up} id {parent}; '
+                                                  f'the table entry {full!r} resolves to {got}'))
+                    return
+
+    def check_versions(self, r, sh, problems):
+        """`shelve.versions()` lists exactly the registered (task, alg, sv, value) chains with their versions"""
+        rows = []
+        for parent, vn, vv in sh.t['value']:
+            try:
+                ap, svn, svv = sh.t['state'][parent]
+                tp, an, av = sh.t['alg'][ap]
+                tk = sh.t['task'][tp][1]
+            except (IndexError, TypeError):
+                return
+            if svv is None or not all(name_ok(x) and '.' not in x for x in (tk, an, svn, vn)):
+                return
+            rows.append((tk, an, av, svn, svv, vn, vv))
+        want = [set(), {}, {}, {}]
+        for tk, an, av, svn, svv, vn, vv in rows:
+            want[0].add(tk)
+            for d, key, ver in ((want[1], (tk, an), av), (want[2], (tk, an, svn), svv), (want[3], (tk, an, svn, vn), vv)):
+                d.setdefault('.'.join(key), []).append('.'.join(str(x) for x in ver))
+        got = [set(r[0])] + [{k: list(v) for k, v in d.items()} for d in r[1:]]
+        for what, w, g in zip(('tasks', 'algorithm', 'state-vector', 'value'), want, got):
+            if (w != g) if what == 'tasks' else ({k: sorted(v) for k, v in w.items()} != {k: sorted(v) for k, v in g.items()}):
+                problems.append(('C08:chain', f'versions() {what} keys/versions {sorted(g)[:6]} differ from the registered chains '
+                                              f'{sorted(w)[:6]}'))
+                return
 
     def check_chain(self, sh, problems, t=None):
         S = self.S
@@ -519,7 +584,7 @@ def to_line(ops, obs):
             out.append([k])
         elif k == 'add':
             out.append(['add', nm(op[1])])
-        elif k == 'register':
+        elif k in ('register', 'register-w'):  # both branches of shelve.update are one model operation
             _, task, alg, av, sv, svv, truthy, vn, vv = op
             out.append(['register', nm(task), nm(alg), list(av), nm(sv), list(svv), bool(truthy), nm(vn), list(vv)])
         elif k == 'store':
@@ -557,7 +622,7 @@ def model_obs(op, m):
     if m[0] == 'bad-op':
         return ['bad-op', m[1]]
     k = op[0]
-    if k in ('open', 'close', 'add', 'register', 'remove'):
+    if k in ('open', 'close', 'add', 'register', 'register-w', 'remove'):
         return ['ok']
     if k == 'store':
         return ['ok', [int(i) for i in m[1]]]
@@ -634,7 +699,8 @@ def gen_history(r, odd=False):
                 ops.extend([['arm', r.choice(['target', 'task', 'alg', 'state', 'value'])], list(st)])
             ops.append(st)
         elif x < 0.52:
-            ops.append(['register', r.choice(tk), r.choice(al), r.choice(ve), r.choice(sv), r.choice(ve),
+            ops.append(['register' if odd or r.random() < 0.5 else 'register-w', r.choice(tk), r.choice(al), r.choice(ve),
+                        r.choice(sv), r.choice(ve),
                         r.random() < 0.9, r.choice(va), r.choice(ve)])
         elif x < 0.56:
             ops.append(['add', r.choice(T)])
@@ -699,6 +765,12 @@ CORPUS = [
     [['open'], ['store', 1, 'X', 't', 'A', V1, '1', V1, '1', V1, 1], ['store', 1, 'X', 't', 'A', V1, 'sv', V1, 'v', V1, 2],
      ['remove', 1, 'X', 't', 'A2', '1', '1'], ['remove', 1, 'X', 't', 'A', '11', '1'], ['remove', 1, 'X', 't', 'A', '1', '11'],
      ['keys'], ['dump']],
+    # registration from a worker (re-opened handle) once task / algorithm / state-vector ids differ
+    [['open'], ['store', 1, 'X', 't', 'A', V1, 'sv', V1, 'v', V1, 1], ['store', 1, 'X', 't', 'A', V1, 'sv_', V1, 'v', V1, 2],
+     ['store', 1, 'X', 't', 'A2', V1, 's', V1, 'v', V1, 3], ['register', 't2', 'A', V1, 'sv', V1, True, 'v', V1],
+     ['register-w', 't2', 'A', V2, 'sv', V1, True, 'v1', V1], ['register-w', 't', 'A2', V1, 'sv', V2, True, 'v', V2],
+     ['register-w', 't', 'A', V1, 'sv_', V1, True, 'v', V1], ['versions'], ['keys'],
+     ['store', 2, 'X', 't2', 'A', V2, 'sv', V1, 'v1', V1, 4], ['versions'], ['close'], ['open'], ['versions'], ['dump']],
     # one failing table write while a new name is registered, then the retry: nothing may be left behind
     [['open'], ['store', 1, 'X', 'alpha', 'A', V1, 'sv', V1, 'v', V1, 1], ['arm', 'task'],
      ['store', 1, 'X', 'beta', 'A', V1, 'sv', V1, 'v', V1, 2], ['store', 1, 'X', 'beta', 'A', V1, 'sv', V1, 'v', V1, 2],
@@ -829,6 +901,7 @@ def compare_grid(res, what, arg, impl, out):
 
 def run(ctx, res):
     rn = Runner()
+    rn.S.install_loopback()   # the worker branch of shelve.update and the loop-back mode talk to a real comms.Worker
     r = common.rng(ctx['seed'], 'C08')
     thorough = ctx['tier'] == 'thorough' or ctx['escalate']
     res.rule = ('histories of open/close, add, register, store (the five appends of __to_key + prime entry), '
@@ -841,7 +914,6 @@ def run(ctx, res):
     found = []
     for ops in CORPUS + file_corpus('C08'):
         found += [(p, ops, 'direct') for p in check_history(rn, res, ops, 'corpus', lines, pending)]
-    rn.S.install_loopback()
     for ops in CORPUS[:4]:
         found += [(p, ops, 'loopback') for p in check_history(rn, res, ops, 'corpus-loopback', lines, pending, 'loopback')]
     n = 1500 if thorough else 260
@@ -892,8 +964,7 @@ def run(ctx, res):
 def replay(rep, res):
     rn = Runner()
     inp = rep['input']
-    if inp.get('mode') == 'loopback':
-        rn.S.install_loopback()
+    rn.S.install_loopback()
     ops = json.loads(json.dumps(inp['ops']))
     _obs, problems = rn.run(ops, inp.get('mode', 'direct'))
     for sig, what in problems:
